@@ -675,7 +675,10 @@ fn spmc_exec(stealers: usize, total: usize, r: &mut Rng, miri: bool) -> Result<E
         }
     }
     owner_done.store(true, SeqCst);
-    // owner drains what it can, then pushes flush values so that every over-claiming taker completes
+    // owner drains what it can. No flush values here: `steal_into` works out its range after it has locked the head
+    // (bulk_pop), so a stealer never waits for the owner - it used to after an ABA on the packed head word, holding the
+    // tasks in front of the slots it had over-claimed until that many more were pushed (D34: with no more work for
+    // that worker the runtime hung)
     loop {
         let c = stamp();
         let v = local.pop().map(|t| t.value());
@@ -685,44 +688,19 @@ fn spmc_exec(stealers: usize, total: usize, r: &mut Rng, miri: bool) -> Result<E
             break;
         }
     }
-    for _ in 0..stealers + 1 {
-        let c = stamp();
-        local.push_back(Tracked::new(pushed, &reg));
-        ops.push(Op { thread: 0, k: OpK::Push(pushed), c, r: stamp() });
-        pushed += 1;
-    }
-    // let the stealers take the flush values or take them back ourselves
     let t0 = std::time::Instant::now();
-    loop {
-        let c = stamp();
-        let v = local.pop().map(|t| t.value());
-        let none = v.is_none();
-        ops.push(Op { thread: 0, k: OpK::Pop(v.into_iter().collect(), false), c, r: stamp() });
-        if none {
-            break;
-        }
-    }
     stop.store(true, SeqCst);
     let mut overlap_taken = 0;
     let mut joined = 0;
-    let mut extra_flush = 0usize;
-    // termination: a taker that over-claimed must complete now that the slots were filled
+    // termination: every steal_into returns although nothing is pushed any more (the 20 s are a watchdog for a thread
+    // that would otherwise sleep for ever, not a latency bound)
     while joined < hs.len() {
         if hs[joined].is_finished() {
             joined += 1;
             continue;
         }
-        // a taker whose claim reaches beyond the tail (ABA on the packed head word: the documented wait loop of
-        // bulk_pop) completes only when those slots are filled: keep filling, a claim never spans more than one block
-        if !miri && extra_flush < 4 * 32 && t0.elapsed() > Duration::from_millis(20 + 15 * extra_flush as u64) {
-            let c = stamp();
-            local.push_back(Tracked::new(pushed, &reg));
-            ops.push(Op { thread: 0, k: OpK::Push(pushed), c, r: stamp() });
-            pushed += 1;
-            extra_flush += 1;
-        }
         if !miri && t0.elapsed() > Duration::from_secs(20) {
-            return Err(format!("termination: a stealer did not finish 20s after the owner pushed {} flush values, four blocks' worth (claimed slot never completes)", stealers + 1 + extra_flush));
+            return Err("termination: a stealer did not return from steal_into 20s after the owner stopped pushing (its claim reaches beyond what was pushed and it waits for more)".to_string());
         }
         std::thread::yield_now();
         if !miri {
@@ -744,7 +722,7 @@ fn spmc_exec(stealers: usize, total: usize, r: &mut Rng, miri: bool) -> Result<E
             break;
         }
     }
-    let desc = format!("stealers={} values={} (+{} flush) taken by stealers while the owner was pushing: {}", stealers, total, stealers + 1, overlap_taken);
+    let desc = format!("stealers={} values={} (no flush) taken by stealers while the owner was pushing: {}", stealers, total, overlap_taken);
     check_spmc(&ops, pushed).map_err(|e| format!("{} | {} | last ops: {:?}", e, desc, render(&ops, 24)))?;
     drop(local);
     drop(steal);
